@@ -1,7 +1,7 @@
 (** C16 property theorems (statements only; proofs in Proofs_C16*.v). *)
 From Coq Require Import ZArith List Bool.
 From AwkV Require Import Base Layout Valid Types Proofs_ToList.
-From AwkBuffers Require Import Buffers Proofs_C16 Proofs_C16b Proofs_C16c Proofs_C16d.
+From AwkBuffers Require Import Buffers Proofs_C16 Proofs_C16b Proofs_C16c Proofs_C16d Proofs_C16e Proofs_C16f Proofs_C16g Proofs_C16h Proofs_C16i Proofs_C16j.
 Import ListNotations.
 Open Scope Z_scope.
 
@@ -67,3 +67,195 @@ Theorem bitmap_padding_zero : forall bits i, 0 <= i -> i / 8 = (zlen bits - 1) /
   bitmap_bit (pack_lsb bits) i = Ok false.
 Proof. exact bitmap_padding_zero_thm. Qed.
 Print Assumptions bitmap_padding_zero.
+
+(* ---- session 5: the round trip on wider fragments (Proofs_C16f/g/h.v).
+   fragG fixed sl: see Proofs_C16f.v; fragG false false contains frag16 (frag16_in_fragG) plus NumpyArray with zero inner
+   dimensions and BitMaskedArray over records where to_buffers does not range-slice it. *)
+Theorem buffers_roundtrip_partial2 : forall c, Valid None c -> fragG false false c = true -> Proofs_ToList.chars_ok c = true ->
+  exists c', from_buffers (to_buffers c) = Ok c' /\ to_list c' = to_list c /\ type_of c' = type_of c /\ clen c' = clen c.
+Proof. exact buffers_roundtrip_partial2_thm. Qed.
+Print Assumptions buffers_roundtrip_partial2.
+
+(* the proposed repair: every node class and nesting; only offsets outside the content (all lists empty) stay excluded *)
+Theorem buffers_roundtrip_fixed_partial : forall c, Valid None c -> offs_in c = true -> Proofs_ToList.chars_ok c = true ->
+  exists c', from_buffers_gen true (to_buffers c) = Ok c' /\ to_list c' = to_list c /\ type_of c' = type_of c /\ clen c' = clen c.
+Proof. exact buffers_roundtrip_fixed_partial_thm. Qed.
+Print Assumptions buffers_roundtrip_fixed_partial.
+
+Theorem buffers_roundtrip_gen_partial : forall fixed c, Valid None c -> fragG fixed false c = true -> Proofs_ToList.chars_ok c = true ->
+  exists c', from_buffers_gen fixed (to_buffers c) = Ok c' /\ to_list c' = to_list c /\ type_of c' = type_of c /\ clen c' = clen c.
+Proof. exact buffers_roundtrip_gen_thm. Qed.
+Print Assumptions buffers_roundtrip_gen_partial.
+
+Theorem frag16_in_fragG : forall c, frag16 c = true -> fragG false false c = true /\ offs_in c = true.
+Proof. exact frag16_in_fragG_thm. Qed.
+Print Assumptions frag16_in_fragG.
+
+(* exact_tree: every ByteMasked / ListArray / Union node is asked for exactly the length of the index buffer it keeps *)
+Theorem pinned_is_fixed_when_exact : forall c, exact_tree (to_ftree c None) (clen c) = true -> from_buffers (to_buffers c) = from_buffers_gen true (to_buffers c).
+Proof. exact pinned_is_fixed_when_exact_thm. Qed.
+Print Assumptions pinned_is_fixed_when_exact.
+
+Theorem buffers_roundtrip_exact_partial : forall c, Valid None c -> offs_in c = true -> Proofs_ToList.chars_ok c = true -> exact_tree (to_ftree c None) (clen c) = true ->
+  exists c', from_buffers (to_buffers c) = Ok c' /\ to_list c' = to_list c /\ type_of c' = type_of c /\ clen c' = clen c.
+Proof. exact buffers_roundtrip_exact_partial_thm. Qed.
+Print Assumptions buffers_roundtrip_exact_partial.
+
+(* safe_tree t l1 l2 (Proofs_C16i.v): the pinned code asks for l1, the repair for l2 >= l1, and wherever the rebuilt node
+   depends on the asked length the two are equal; covers contents that come back whole AND nodes asked exactly *)
+Theorem pinned_is_fixed_when_safe : forall c c',
+  safe_tree (to_ftree c None) (clen c) (clen c) = true ->
+  from_buffers_gen true (to_buffers c) = Ok c' -> from_buffers (to_buffers c) = Ok c'.
+Proof. exact pinned_is_fixed_when_safe_thm. Qed.
+Print Assumptions pinned_is_fixed_when_safe.
+
+Theorem buffers_roundtrip_safe_partial : forall c,
+  Valid None c -> offs_in c = true -> Proofs_ToList.chars_ok c = true -> safe_tree (to_ftree c None) (clen c) (clen c) = true ->
+  exists c', from_buffers (to_buffers c) = Ok c' /\ to_list c' = to_list c /\ type_of c' = type_of c /\ clen c' = clen c.
+Proof. exact buffers_roundtrip_safe_partial_thm. Qed.
+Print Assumptions buffers_roundtrip_safe_partial.
+
+(* tight layouts (every node reaches exactly the whole of its content, as after ak.packed): the identity, buffers included *)
+Theorem buffers_roundtrip_identity : forall fixed c, tightS false c = true -> from_buffers_gen fixed (to_buffers c) = Ok c.
+Proof. exact buffers_roundtrip_identity_thm. Qed.
+Print Assumptions buffers_roundtrip_identity.
+
+(* node classes, widths, sizes, record keys and every parameter survive: any layout, both variants *)
+Theorem from_buffers_skeleton : forall fixed c c', from_buffers_gen fixed (to_buffers c) = Ok c' -> skel_of c' = skel_of c.
+Proof. exact from_buffers_skeleton_thm. Qed.
+Print Assumptions from_buffers_skeleton.
+
+Theorem from_buffers_parameters : forall fixed c c', from_buffers_gen fixed (to_buffers c) = Ok c' -> params_of (skel_of c') = params_of (skel_of c).
+Proof. exact from_buffers_parameters_thm. Qed.
+Print Assumptions from_buffers_parameters.
+
+(* known finding buffers-trimmed-content-under-untrimmed-parent: ListArray over a record, an INVALID layout comes back *)
+Theorem buffers_roundtrip_invalid_result_refuted : exists c c', Valid None c /\ from_buffers (to_buffers c) = Ok c' /\ validb None c' = false /\
+               (exists vs, to_list c = Ok vs) /\ to_list c' = Err EOob /\ rt_value true c = to_list c.
+Proof. exact buffers_roundtrip_invalid_result_refuted_thm. Qed.
+Print Assumptions buffers_roundtrip_invalid_result_refuted.
+
+(* same finding, no list needed: RegularArray(ByteMaskedArray(RecordArray)) with a remainder *)
+Theorem buffers_roundtrip_top_level_refuted : exists c, Valid None c /\ from_buffers (to_buffers c) = Err EValue /\ (exists vs, to_list c = Ok vs) /\
+            rt_value true c = to_list c /\ exists c0 size zl, c = Regular c0 size zl.
+Proof. exact buffers_roundtrip_top_level_refuted_thm. Qed.
+Print Assumptions buffers_roundtrip_top_level_refuted.
+
+(* known finding buffers-empty-lists-offsets-beyond-content; the repair does not touch this branch *)
+Theorem buffers_offsets_outside_content_refuted : exists c, Valid None c /\ (exists vs, to_list c = Ok vs) /\ forall fixed, from_buffers_gen fixed (to_buffers c) = Err EValue.
+Proof. exact buffers_offsets_outside_content_refuted_thm. Qed.
+Print Assumptions buffers_offsets_outside_content_refuted.
+
+(* same branch with negative equal offsets: a RegularArray of negative length comes back (variant not in the finding's text) *)
+Theorem buffers_offsets_negative_refuted : exists c c', Valid None c /\ to_list c = Ok [VList []] /\
+               (forall fixed, from_buffers_gen fixed (to_buffers c) = Ok c') /\ to_list c' = Err EValue.
+Proof. exact buffers_offsets_negative_refuted_thm. Qed.
+Print Assumptions buffers_offsets_negative_refuted.
+
+(* ---- session 5: Arrow / NumPy laws (Proofs_C16e.v) *)
+Theorem arrow_validity_bitmap_roundtrip : forall bits : list bool,
+  map (bitmap_bit (pack_lsb bits)) (iota (zlen bits)) = map Ok bits /\
+  unpack_lsb (pack_lsb bits) (zlen bits) = Ok bits /\
+  zlen (pack_lsb bits) = (zlen bits + 7) / 8 /\
+  (forall i, zlen bits <= i < 8 * zlen (pack_lsb bits) -> bitmap_bit (pack_lsb bits) i = Ok false) /\
+  Forall (fun b => 0 <= b < 256) (pack_lsb bits).
+Proof. exact arrow_validity_bitmap_roundtrip_thm. Qed.
+Print Assumptions arrow_validity_bitmap_roundtrip.
+
+Theorem arrow_validity_bytemask_roundtrip : forall vw m, Forall (fun b => b = 0 \/ b = 1) m ->
+  rmap (valid_mask vw) (unpack_lsb (pack_lsb (mask_valid vw m)) (zlen m)) = Ok m.
+Proof. exact arrow_validity_bytemask_roundtrip_thm. Qed.
+Print Assumptions arrow_validity_bytemask_roundtrip.
+
+Theorem arrow_validity_bytemask_roundtrip_gen : forall vw m,
+  rmap (valid_mask vw) (unpack_lsb (pack_lsb (mask_valid vw m)) (zlen m)) = Ok (map (fun b => if b =? 0 then 0 else 1) m).
+Proof. exact arrow_validity_bytemask_roundtrip_gen_thm. Qed.
+Print Assumptions arrow_validity_bytemask_roundtrip_gen.
+
+Theorem arrow_bitmap_is_bitmasked_mask : forall bits : list bool, take (zlen bits) (unpack_bits true (pack_lsb bits)) = map (fun b : bool => if b then 1 else 0) bits.
+Proof. exact arrow_bitmap_is_bitmasked_mask_thm. Qed.
+Print Assumptions arrow_bitmap_is_bitmasked_mask.
+
+Theorem arrow_offsets_window : forall (child : list value) o o0 rest hi,
+  o = o0 :: rest -> 0 <= o0 ->
+  Forall (fun ab : Z * Z => fst ab = snd ab \/ (o0 <= fst ab /\ snd ab <= hi)) (pairs o) ->
+  arrow_list (rebase o) (take (hi - o0) (drop o0 child)) = arrow_list o child.
+Proof. exact arrow_offsets_window_thm. Qed.
+Print Assumptions arrow_offsets_window.
+
+Theorem arrow_sliced_offsets_value : forall (child : list value) o o0 rest,
+  o = o0 :: rest -> 0 <= o0 -> Forall (fun ab : Z * Z => fst ab <= snd ab) (pairs o) ->
+  arrow_list (rebase o) (take (last o o0 - o0) (drop o0 child)) = arrow_list o child.
+Proof. exact arrow_sliced_offsets_value_thm. Qed.
+Print Assumptions arrow_sliced_offsets_value.
+
+Theorem arrow_sliced_content_exact : forall (child : list value) o o0 rest,
+  o = o0 :: rest -> 0 <= o0 -> Forall (fun ab : Z * Z => fst ab <= snd ab) (pairs o) -> last o o0 <= zlen child ->
+  exists rest', rebase o = 0 :: rest' /\ last (rebase o) 0 = last o o0 - o0 /\
+                zlen (take (last o o0 - o0) (drop o0 child)) = last (rebase o) 0.
+Proof. exact arrow_sliced_content_exact_thm. Qed.
+Print Assumptions arrow_sliced_content_exact.
+
+Theorem arrow_compact_offsets_tight : forall (child : list value) s e ls,
+  cut2 child s e = Ok ls ->
+  exists rest, compact_offsets s e = 0 :: rest /\ zlen (compact_offsets s e) = zlen ls + 1 /\
+               last (compact_offsets s e) 0 = zlen (concat ls) /\
+               arrow_list (compact_offsets s e) (concat ls) = Ok (map VList ls).
+Proof. exact arrow_compact_offsets_tight_thm. Qed.
+Print Assumptions arrow_compact_offsets_tight.
+
+Theorem arrow_nullable_is_bytemasked : forall m vw (child : list value),
+  arrow_nullable (pack_lsb (mask_valid vw m)) (zlen m) child =
+  mapM (fun im : Z * Z => let (i, b) := im in pick_opt child (Bool.eqb (negb (b =? 0)) vw) i) (zip (iota (zlen m)) m).
+Proof. exact arrow_nullable_is_bytemasked_thm. Qed.
+Print Assumptions arrow_nullable_is_bytemasked.
+
+Theorem arrow_option_below_top_preserved : forall w o m vw c,
+  to_list (ListOffset w o (ByteMasked m vw c)) =
+  bind (to_list c) (fun child =>
+  bind (arrow_nullable (pack_lsb (mask_valid vw m)) (zlen m) child) (fun items =>
+  arrow_list o items)).
+Proof. exact arrow_option_below_top_preserved_thm. Qed.
+Print Assumptions arrow_option_below_top_preserved.
+
+Theorem arrow_option_below_top_sliced : forall w o o0 rest m vw c,
+  o = o0 :: rest -> 0 <= o0 -> Forall (fun ab : Z * Z => fst ab <= snd ab) (pairs o) ->
+  to_list (ListOffset w o (ByteMasked m vw c)) =
+  bind (to_list c) (fun child =>
+  bind (arrow_nullable (pack_lsb (mask_valid vw m)) (zlen m) child) (fun items =>
+  arrow_list (rebase o) (take (last o o0 - o0) (drop o0 items)))).
+Proof. exact arrow_option_below_top_sliced_thm. Qed.
+Print Assumptions arrow_option_below_top_sliced.
+
+Theorem arrow_nullable_none : forall m vw (child items : list value) i,
+  arrow_nullable (pack_lsb (mask_valid vw m)) (zlen m) child = Ok items -> 0 <= i < zlen m ->
+  get items i = if Bool.eqb (negb (nth (Z.to_nat i) m 0 =? 0)) vw then get child i else Ok VNone.
+Proof. exact arrow_nullable_none_thm. Qed.
+Print Assumptions arrow_nullable_none.
+
+Theorem to_numpy_masked_roundtrip : forall ra x m, wf_nd x -> nd_mask x = Some m ->
+  exists y, to_numpy_model true (from_numpy_model ra x) = Ok y /\ nd_equiv y x /\
+            nd_value y = to_list (from_numpy_model ra x) /\ nd_value y = nd_value x /\
+            nd_shape y = nd_shape x /\ nd_dt y = nd_dt x /\ nd_mask y = Some m /\
+            nd_data y = blank m (nd_data x).
+Proof. exact to_numpy_masked_roundtrip_thm. Qed.
+Print Assumptions to_numpy_masked_roundtrip.
+
+Theorem to_numpy_strict_on_masked : forall ra x m, wf_nd x -> nd_mask x = Some m ->
+  to_numpy_model false (from_numpy_model ra x) =
+  if any_true m then Err EValue else Ok (mk_nd (nd_dt x) (nd_shape x) (nd_data x) None).
+Proof. exact to_numpy_strict_on_masked_thm. Qed.
+Print Assumptions to_numpy_strict_on_masked.
+
+(* to_numpy agrees with to_list on every layout to_numpy accepts (not only on the image of from_numpy); np_frag: no
+   RegularArray of size 0 (to_numpy_size0_refuted, known finding numpy-zero-length-dimension); nd_ok: the result is well formed *)
+Theorem to_numpy_is_to_list_partial2 : forall am c y,
+  np_frag c = true -> to_numpy_model am c = Ok y -> to_list c = nd_value y /\ nd_ok y.
+Proof. exact to_numpy_is_to_list_partial2_thm. Qed.
+Print Assumptions to_numpy_is_to_list_partial2.
+
+Theorem from_numpy_to_numpy_value : forall am ra c y,
+  np_frag c = true -> to_numpy_model am c = Ok y -> Forall (fun d => 0 < d) (tl (nd_shape y)) ->
+  to_list (from_numpy_model ra y) = to_list c /\ wf_nd y.
+Proof. exact from_numpy_to_numpy_value_thm. Qed.
+Print Assumptions from_numpy_to_numpy_value.
